@@ -21,6 +21,8 @@ RULE = (
     "leaves the TOC serialisation unchanged; scripts.headers.headers_document prints the same 'number heading' sequence for the "
     "same depth. Non-trivial = heading sequence with a level skip followed later by a shallower heading, or a heading with "
     "inline markup / blanks; distinct by (items, steps)."
+    ' Also: save(+pretty)/reload between fills, a title set or changed after creation (set_toc_title), heading levels up to'
+    ' 13 and outline levels up to 14.'
 )
 ASSUMPTIONS = [
     "numbering of skipped levels follows odfdo's documented convention (missing ancestor = 1); the property only asks for a consistent outline",
